@@ -3,6 +3,8 @@ package props
 import (
 	"fmt"
 
+	"golang.org/x/tools/go/ssa"
+
 	"rjverif/internal/core"
 	"rjverif/internal/linarith"
 	"rjverif/internal/lts"
@@ -258,6 +260,9 @@ func C07(x *Ctx, r *core.Result) {
 	x.wrapperSymmetry(r, w, "HandleArrayValues", "HandleObjectValues")
 	x.wrapperPassThrough(r, w, "HandleArrayValues", "HandleObjectValues")
 	r.CheckFloor(w, 2)
+	ad := r.Rule("R07x", "the function adapters ArrayValueHandlerFunc / ObjectValueHandlerFunc call the wrapped function with the same arguments in the same order and return its results unchanged")
+	x.adapterRule(r, ad)
+	r.CheckFloor(ad, 2)
 	// every member-value kind has a handler call
 	k := r.Rule("R07k", "at least one handler call exists for every member-value kind (string, number, true, false, null, array, object) in each handler machine")
 	for _, hm := range handlerMachines {
@@ -283,3 +288,59 @@ func C07(x *Ctx, r *core.Result) {
 }
 
 func init() { Registry["C07"] = Prop{"proof", C07} }
+
+// adapterRule: `func (fn XHandlerFunc) HandleX(args…) (int, error) { return fn(args…) }`.
+func (x *Ctx) adapterRule(r *core.Result, rs *core.RuleStat) {
+	for _, n := range []string{"ArrayValueHandlerFunc.HandleArrayValue", "ObjectValueHandlerFunc.HandleObjectValue"} {
+		fn := x.Func(n)
+		if fn == nil {
+			r.Undecided(rs, n, "-", "adapter not found")
+			continue
+		}
+		rs.Instances++
+		var call *ssa.Call
+		var ret *ssa.Return
+		bad := ""
+		for _, b := range fn.Blocks {
+			for _, ins := range b.Instrs {
+				switch t := ins.(type) {
+				case *ssa.Call:
+					if call != nil {
+						bad = "more than one call"
+					}
+					call = t
+				case *ssa.Return:
+					ret = t
+				case *ssa.Store, *ssa.MapUpdate:
+					bad = "adapter has a side effect"
+				}
+			}
+		}
+		switch {
+		case bad != "":
+		case call == nil || ret == nil || len(fn.Params) < 2 || call.Call.Value != ssa.Value(fn.Params[0]):
+			bad = "adapter does not call the wrapped function value"
+		default:
+			if len(call.Call.Args) != len(fn.Params)-1 {
+				bad = "argument count differs"
+			}
+			for i, a := range call.Call.Args {
+				if i+1 < len(fn.Params) && a != ssa.Value(fn.Params[i+1]) {
+					bad = fmt.Sprintf("argument %d is not passed through in order", i)
+				}
+			}
+			for i, res := range ret.Results {
+				ex, ok := res.(*ssa.Extract)
+				if !ok || ex.Tuple != ssa.Value(call) || ex.Index != i {
+					bad = fmt.Sprintf("result %d is not the wrapped function's result %d", i, i)
+				}
+			}
+		}
+		if bad != "" {
+			r.Fail(rs, n+":adapter", x.W.Pos(fn.Pos()), bad)
+		} else {
+			rs.OK(1)
+			rs.Sample(n + ": return fn(args…) unchanged")
+		}
+	}
+}
